@@ -341,6 +341,17 @@ def _paths(case, j, ctx):
                     _viol(ctx, "read_dedisp_block-dm", regime1, f"block.dm {b.dm} != {dm}", one)
             except Exception as exc:  # noqa: BLE001
                 _viol(ctx, f"read_dedisp_block-raised:{type(exc).__name__}@{exc_site(exc)}", regime1, fmt_exc(exc), one)
+            # a request whose dispersed samples do not all exist must be refused, not filled with something else
+            for st_bad, m_bad in ((hi1 - 1, 3), (lo1 - 1, 2)):
+                if 0 <= st_bad < n:
+                    ctx.count("read_dedisp_out_of_range_requests")
+                    try:
+                        bb = fil.read_dedisp_block(st_bad, m_bad, dm)
+                        _viol(ctx, "read_dedisp_block-out-of-range-accepted", regime1, f"read_dedisp_block({st_bad},{m_bad},{dm}) returned a block of shape {bb.data.shape} although x[c,start+t+d_c] needs samples outside [0,{n})", one)
+                    except ValueError:
+                        pass
+                    except Exception as exc:  # noqa: BLE001
+                        _viol(ctx, f"read_dedisp_block-out-of-range-raised:{type(exc).__name__}", regime1, fmt_exc(exc), one)
 
     # ---- DM-time transform
     steps = int(rng.choice([1, 2, 5, 9, 65, 257], p=[0.15, 0.2, 0.2, 0.2, 0.15, 0.1]))   # fine grids: neighbouring trials differ in a few channels only
